@@ -579,6 +579,43 @@ def _fresh_local(fn_node: ast.AST, e: ast.AST | None) -> bool:
 	return bool(binds) and e.id not in params and all(_fresh(v) for v in binds)
 
 
+def _escapes(fn_node: ast.AST, name: str) -> bool:
+	"""the local is also stored somewhere that outlives the call (setattr(..., name), self.x = name, self.x[k] = name): the caller gets the stored object"""
+	for n in walk_no_nested(fn_node):
+		if isinstance(n, ast.Call) and isinstance(n.func, ast.Name) and n.func.id == 'setattr' and any(isinstance(a, ast.Name) and a.id == name for a in n.args):
+			return True
+		if isinstance(n, (ast.Assign, ast.AnnAssign)) and isinstance(n.value, ast.Name) and n.value.id == name:
+			for t in (n.targets if isinstance(n, ast.Assign) else [n.target]):
+				if isinstance(t, (ast.Attribute, ast.Subscript)):
+					return True
+	return False
+
+
+def _sharing(idx: SourceIndex, g: FuncInfo, depth: int = 2) -> str:
+	"""'fresh' (every return builds a new list), 'shared' (some return hands out stored state by reference) or 'unknown'"""
+	verdicts = []
+	for x in [r_.value for r_ in walk_no_nested(g.node) if isinstance(r_, ast.Return)]:
+		if _fresh(x) or (_fresh_local(g.node, x) and not _escapes(g.node, x.id)):
+			verdicts.append('fresh')
+		elif isinstance(x, ast.Name) and _escapes(g.node, x.id):
+			verdicts.append('shared')
+		elif isinstance(x, ast.Attribute) and isinstance(x.value, ast.Name) and x.value.id in ('self', 'cls'):
+			verdicts.append('shared')
+		elif isinstance(x, ast.Call) and isinstance(x.func, ast.Name) and x.func.id == 'getattr' and x.args and isinstance(x.args[0], ast.Name) and x.args[0].id in ('self', 'cls'):
+			verdicts.append('shared')
+		elif isinstance(x, ast.Subscript) and not isinstance(x.slice, ast.Slice) and isinstance(x.value, ast.Attribute) and isinstance(x.value.value, ast.Name) and x.value.value.id in ('self', 'cls'):
+			verdicts.append('shared')
+		elif isinstance(x, ast.Call) and isinstance(x.func, ast.Attribute) and depth > 0:
+			cands = [f for rel in idx.all_py(('rogw',)) if not rel.startswith('rogw/tranp/test/') for q, f in idx.mod(rel).functions.items() if f.name == x.func.attr and f.cls is not None and '#' not in q and not any('abstractmethod' in unparse(d) for d in f.node.decorator_list)]
+			vs = {_sharing(idx, f, depth - 1) for f in cands}
+			verdicts.append(vs.pop() if len(vs) == 1 else 'unknown')
+		else:
+			verdicts.append('unknown')
+	if 'shared' in verdicts:
+		return 'shared'
+	return 'fresh' if verdicts and all(v == 'fresh' for v in verdicts) else 'unknown'
+
+
 def rule_f(rep: Report, idx: SourceIndex, nm: NodeModel) -> None:
 	r = rep.rule('C09/node-lists-not-mutated', 'a list obtained from a node property is mutated in place only if every definition of that property builds a fresh list on each call (properties are re-read by Procedure: a shared list that shrinks between flattening and popping misaligns the event)', floor=1)
 	list_props: dict[str, list[FuncInfo]] = {}
@@ -587,6 +624,13 @@ def rule_f(rep: Report, idx: SourceIndex, nm: NodeModel) -> None:
 			for f in defs:
 				if f.is_property and declared_list(f):
 					list_props.setdefault(name, []).append(f)
+	# list-valued METHODS of the node classes (prop_keys: the class-level order of the expandable properties the walker flattens and pops by)
+	list_methods: dict[str, list[FuncInfo]] = {}
+	for c in nm.classes + [nm.node_cls]:
+		for name, defs in c.methods.items():
+			for f in defs:
+				if not f.is_property and declared_list(f):
+					list_methods.setdefault(name, []).append(f)
 	n_sites = 0
 	for rel in idx.all_py(('rogw',)):
 		if rel.startswith(('rogw/tranp/test/', 'rogw/tranp/compatible/', 'rogw/tranp/bin/analyze', 'rogw/tranp/bin/ast_check', 'rogw/tranp/bin/gram_check', 'rogw/tranp/bin/j2_check')):
@@ -595,6 +639,44 @@ def rule_f(rep: Report, idx: SourceIndex, nm: NodeModel) -> None:
 		for q, f in m.functions.items():
 			if '#' in q:
 				continue
+			# --- results of list-valued methods: `v = x.prop_keys(); v.reverse()` / `x.prop_keys().sort()`
+			mbound: dict[str, str] = {}
+			mcounts: dict[str, int] = {}
+			for n in walk_no_nested(f.node):
+				if isinstance(n, (ast.Assign, ast.AnnAssign)):
+					for t in (n.targets if isinstance(n, ast.Assign) else [n.target]):
+						if isinstance(t, ast.Name):
+							mcounts[t.id] = mcounts.get(t.id, 0) + 1
+							v = n.value
+							if isinstance(v, ast.Call) and isinstance(v.func, ast.Attribute) and v.func.attr in list_methods and not (isinstance(v.func.value, ast.Name) and v.func.value.id in ('seqs', 're', 'os')):
+								mbound[t.id] = v.func.attr
+			for n in walk_no_nested(f.node):
+				tgt = None
+				if isinstance(n, ast.Call) and isinstance(n.func, ast.Attribute) and n.func.attr in MUTATORS:
+					tgt = n.func.value
+				elif isinstance(n, ast.Delete):
+					tgt = next((t.value for t in n.targets if isinstance(t, ast.Subscript)), None)
+				elif isinstance(n, ast.Assign):
+					tgt = next((t.value for t in n.targets if isinstance(t, ast.Subscript)), None)
+				elif isinstance(n, ast.AugAssign):
+					tgt = n.target.value if isinstance(n.target, ast.Subscript) else (n.target if isinstance(n.op, (ast.Add, ast.Mult)) else None)
+				meth = None
+				if isinstance(tgt, ast.Name) and tgt.id in mbound and mcounts.get(tgt.id) == 1:
+					meth = mbound[tgt.id]
+				elif isinstance(tgt, ast.Call) and isinstance(tgt.func, ast.Attribute) and tgt.func.attr in list_methods:
+					meth = tgt.func.attr
+				if meth is None:
+					continue
+				n_sites += 1
+				rep.consulted(rel)
+				kinds = {f'{g.cls.name}.{meth}': _sharing(idx, g) for g in list_methods[meth]}
+				key = f'{rel}:{q}:{unparse(n)[:50]}'
+				if 'shared' in kinds.values():
+					r.violate(key, (rel, n.lineno), f'`{unparse(n)[:70]}` changes in place the list returned by `{meth}()`, and {[k for k, v in kinds.items() if v == "shared"][:2]} hand out stored state by reference: every later caller sees the changed list' + (' — prop_keys is the class-level ORDER of the expandable properties: the walker flattened the tree in one order and Procedure pops the results in another, so the results of a node\'s properties are swapped (same counts, no error)' if meth == 'prop_keys' else ''), unparse(n)[:100])
+				elif all(v == 'fresh' for v in kinds.values()):
+					r.ok(key, (rel, n.lineno))
+				else:
+					r.skip(key, (rel, n.lineno), f'`{unparse(n)[:60]}` mutates the result of `{meth}()` whose freshness is not decidable from its return expressions ({kinds})')
 			# locals bound (once) to `<expr>.<list property>`
 			bound: dict[str, tuple[str, ast.AST]] = {}
 			counts: dict[str, int] = {}
@@ -635,6 +717,7 @@ def rule_f(rep: Report, idx: SourceIndex, nm: NodeModel) -> None:
 	if n_sites == 0:
 		r.ok('no-mutation-sites', None, message='no in-place mutation of a node-property list found')
 	rep.extra_coverage['node_list_properties'] = len(list_props)
+	rep.extra_coverage['node_list_methods'] = len(list_methods)
 	rep.extra_coverage['node_list_mutation_sites'] = n_sites
 
 
